@@ -142,6 +142,14 @@ const (
 	maxExpressionNesting = 250
 )
 
+// Some migrations repeat an operand (a time added to a datetime is written twice to get its hours and its minutes),
+// so nesting them doubles the length of the migrated expression at each level. A migrated expression is not allowed
+// to be more than this many times as long as the legacy expression (plus a constant for very short expressions).
+const (
+	maxMigratedGrowth = 100
+	maxMigratedSlack  = 1000
+)
+
 var errTooLong = stderrors.New("expression is too long")
 var errTooDeep = stderrors.New("expression is too deeply nested")
 
@@ -212,6 +220,7 @@ func migrateExpression(env envs.Environment, expression string, options *Migrate
 	}
 
 	visitor := newLegacyVisitor(env, options)
+	visitor.maxLength = maxMigratedGrowth*len(expression) + maxMigratedSlack
 	value := visitor.Visit(tree)
 	err, isErr := value.(error)
 
